@@ -123,6 +123,26 @@ def proof_part(pid, rep: Report, registry, findings):
     for o in lem_obs:
         if o.status != "discharged":
             rep.undecided.append(f"{o.name}: lemma {o.status}")
+    # native witnesses: the contract's concrete inputs are run through the real function of the tree under check and the SAME clause
+    # text is evaluated by CPython (cross-check of the encoding on every run; a witness that violates its contract is a concrete failing
+    # input -- reported even when the corresponding obligation is only `unknown` for the solvers, or the function left the subset)
+    from pyvc import replay as R_
+    for info in infos:
+        w = getattr(info.cls, "witnesses", None)
+        if w is None:
+            continue
+        try:
+            for kw in w():
+                res = R_.native_check(info, kw)
+                rep.witness_runs += 1
+                if not res["ok"]:
+                    payload = {"function": info.name, "kind": "native-witness", "inputs": {k: R_.to_literal(v) for k, v in kw.items() if k != "self"},
+                               "native": res, "what": "a witness input of the contract, run on the real function, violates the contract"}
+                    path = write_replay(pid, info.name + "/witness", payload)
+                    rep.violations.append((path, f"{info.name}: contract violated on witness input: {res['detail'][:200]}", False))
+                    break
+        except Exception as e:
+            rep.defects.append(f"witness of {info.name} failed to run: {e!r}\n{traceback.format_exc(limit=4)}")
     for r in results:
         if r.out_of_reach:
             continue
